@@ -426,6 +426,32 @@ pub fn canon_sheet(css_text: &str, o: CanonOpts, comments: Comments) -> Vec<CNod
     canon_nodes(&nodes, o, comments)
 }
 
+/// drop every whitespace token from values and preludes (token-stream comparison)
+pub fn strip_ws(nodes: Vec<CNode>) -> Vec<CNode> {
+    let f = |v: Vec<CTok>| -> Vec<CTok> { v.into_iter().filter(|t| *t != CTok::Ws).collect() };
+    nodes
+        .into_iter()
+        .map(|n| match n {
+            CNode::Rule { selector, children } => CNode::Rule {
+                selector,
+                children: strip_ws(children),
+            },
+            CNode::AtBlock { prelude, children } => CNode::AtBlock {
+                prelude: f(prelude),
+                children: strip_ws(children),
+            },
+            CNode::Decl { name, value, important_last } => CNode::Decl {
+                name,
+                value: f(value),
+                important_last,
+            },
+            CNode::AtStmt { prelude } => CNode::AtStmt { prelude: f(prelude) },
+            CNode::Junk(j) => CNode::Junk(f(j)),
+            c => c,
+        })
+        .collect()
+}
+
 /// equality of canonical token sequences with the colour tolerances of C06: alpha to 1e-9, and
 /// +-1 per channel when either side was written in hsl() notation
 pub fn ctoks_eq(a: &[CTok], b: &[CTok]) -> bool {
